@@ -715,7 +715,7 @@ func trafficCase(c *core.Case, pl *trafficPlan) {
 		}
 	}
 	backComplete := true
-	if !fl.waitCount(otOK, 30*time.Second) {
+	if !fl.waitCount(otOK, 60*time.Second) {
 		backComplete = false
 		run.Inconclusive(fmt.Sprintf("watchdog: %s:%d: %d messages accepted on side %s, not all delivered within the watchdog", c.Group, c.I, otOK, other.side))
 	}
